@@ -42,16 +42,22 @@ Pick == /\ st = "pick"
         /\ \E ls \in LenSeqs :
              /\ ends' = EndsOf(ls)
              /\ tss' = [i \in 1..Len(ls) |-> 2 * i]
-             /\ PrintT(<<"@@V", ToJson([lens |-> ls, rc |-> ReadClasses', pc |-> ProbeClasses'])>>)
-        /\ st' = "run"
+        /\ st' = "classify"
         /\ UNCHANGED <<position, bufferStart, bufNil, pc, searchVars, seeked, out>>
+
+\* Emission of the layout (content lengths) with its alignment classes.
+Lens == [i \in 1..NLines |-> ends[i] - LineStart(i)]
+Classify == /\ st = "classify"
+            /\ PrintT(<<"@@V", ToJson([lens |-> Lens, rc |-> ReadClasses, pc |-> ProbeClasses])>>)
+            /\ st' = "run"
+            /\ UNCHANGED avars
 
 Run == st = "run" /\ Next /\ UNCHANGED <<st, ends, tss>>
 
-MNext == Pick \/ Run
+MNext == Pick \/ Classify \/ Run
 Spec == Init /\ [][MNext]_mvars
 \* Layout emission only (QLogFileAlgMC.gen.cfg).
-GenSpec == Init /\ [][Pick]_mvars
+GenSpec == Init /\ [][Pick \/ Classify]_mvars
 \* For the termination property only.
 FairSpec == Spec /\ WF_mvars(Run /\ Probe)
 
@@ -65,7 +71,7 @@ FairSpec == Spec /\ WF_mvars(Run /\ Probe)
 \* AbsNext <=> Abs!Next wherever out'.arg \in Abs!Targets (TargetInRange).
 \* The cheap stuttering test comes first for the same reason.
 AbsNext == Abs!SeekStart \/ Abs!ReadNext \/ Abs!SeekTS(out'.arg)
-Refines == [][\/ st = "pick"
+Refines == [][\/ st \in {"pick", "classify"}
               \/ (AbsCur' = AbsCur /\ out' = out)
               \/ AbsNext]_<<AbsLines, AbsCur, out>>
 TargetInRange == out.op = "seek" => out.arg \in Abs!Targets
@@ -73,7 +79,7 @@ TargetInRange == out.op = "seek" => out.arg \in Abs!Targets
 \* "without ever looping"
 Terminates == (pc = "probe") ~> (pc = "idle")
 
-Premise == st = "run" => LinesWithinLimit
+Premise == st # "pick" => LinesWithinLimit
 
 \* Output-only / history-free view: `out` is not read by any action.
 View == <<ends, position, bufferStart, bufNil, pc, sTarget, sStart, sEnd, sProbe, sLast, sDepth, seeked, st>>
